@@ -74,6 +74,19 @@ func matchKnown(ks []knownFinding, v *Violation) string {
 		}
 		ok := true
 		for key, want := range k.Match {
+			if lst, isList := want.([]any); isList {
+				found := false
+				for _, w := range lst {
+					if fmt.Sprint(facts[key]) == fmt.Sprint(w) {
+						found = true
+					}
+				}
+				if !found {
+					ok = false
+					break
+				}
+				continue
+			}
 			if fmt.Sprint(facts[key]) != fmt.Sprint(want) {
 				ok = false
 				break
